@@ -349,7 +349,11 @@ def _conclusions(P, R):
         else:
             R.violate("d", "find:direct-conditional", "the direct field lookup only happens for dotted fields", fc)
     else:
-        R.violate("d", "find:shape", "find_candidates is not `direct hit ∪ prefix matches` (direct=%d, unions=%d, prefix=%d)" % (len(direct), len(ext), len(prefix)), fc)
+        if direct and not ext and not prefix:
+            # the union is not written with extend()/starts_with in the function body (one iterator chain with closures): no verdict
+            R.undecide("d", "find:shape", "find_candidates looks the field up directly but builds the rest of its result in a form this rule does not read", fc)
+        else:
+            R.violate("d", "find:shape", "find_candidates is not `direct hit ∪ prefix matches` (direct=%d, unions=%d, prefix=%d)" % (len(direct), len(ext), len(prefix)), fc)
     rr = P.one(CI + "::remove_rule")
     rm1 = [c for (c, s) in A.calls_with_receiver_field(rr, "rule_to_conclusions", CI) if c.name.endswith("HashMap::remove")]
     rm2 = [c for c in rr.calls() if c.name.endswith("HashSet::remove") and "field_to_rules" in fmt_sym(rr.sym_operand(c.args[0]), maxdepth=10) and c.bb in rr.normal_blocks()]
